@@ -52,14 +52,19 @@ Section Spec.
 
   (* pc / pd: cache and database contents observed before the operation;
      sv: every (block, filter) served so far by a well-formed response *)
-  Definition step_ok (pc pd sv : list (Z * Z)) (o : op) (ob : obs) : bool :=
+  (* strict = true: the whole property.  strict = false ("core"): entries that
+     were already in the cache / database before the operation, and filters
+     returned from them, are exempt from the relation — they may have been
+     invalidated by a rewrite of the committed headers (root cause 1); what
+     is fetched or stored anew is never exempt. *)
+  Definition step_ok (strict : bool) (pc pd sv : list (Z * Z)) (o : op) (ob : obs) : bool :=
     match o with
     | Call c =>
       let sv' := served c ++ sv in
       (* whatever is returned satisfies the committed-header relation ... *)
       (match o_res ob with
        | RFilter f =>
-         verified (c_blk c) f &&
+         (if o_queried ob || strict then verified (c_blk c) f else true) &&
          (if o_queried ob
           (* ... and, when fetched, was served for the target block by a
              well-formed response of this call whose batch succeeded *)
@@ -78,11 +83,11 @@ Section Spec.
       (if o_queried ob && negb ((1 <=? c_blk c) && (c_blk c <=? best)) then is_err (o_res ob) else true) &&
       (if o_queried ob then range_ok c (o_range ob) else true) &&
       (* cache: only verified filters; gains only what this call's stream served *)
-      all_verified (o_cache ob) &&
-      forallb (fun p => pmem p pc || (o_queried ob && pmem p (served c))) (o_cache ob)
+      forallb (fun p => (verified (fst p) (snd p) || (negb strict && pmem p pc)) &&
+                        (pmem p pc || (o_queried ob && pmem p (served c)))) (o_cache ob)
     | Flush _ | PurgeDB =>
-      all_verified (o_db ob) && forallb (fun p => pmem p pd || pmem p sv) (o_db ob) &&
-      all_verified (o_cache ob) && forallb (fun p => pmem p pc) (o_cache ob)
+      forallb (fun p => (verified (fst p) (snd p) || negb strict) && (pmem p pd || pmem p sv)) (o_db ob) &&
+      forallb (fun p => (verified (fst p) (snd p) || negb strict) && pmem p pc) (o_cache ob)
     | DropCache => match o_cache ob with [] => true | _ => false end
     end.
 
@@ -95,7 +100,7 @@ Section Spec.
     match tr with
     | [] => None
     | (o, ob) :: rest =>
-      if step_ok pc pd sv o ob
+      if step_ok true pc pd sv o ob
       then first_bad (i + 1) (o_cache ob) (next_pd pd o ob) (next_sv sv o) rest
       else Some i
     end.
@@ -105,3 +110,24 @@ Section Spec.
     all_verified d0 &&
     match first_bad 0 [] d0 [] tr with None => true | Some _ => false end.
 End Spec.
+
+(* -------- monitor for histories with header rewrites -------- *)
+(* The monitor follows the committed headers: after a rewrite it judges by
+   the new ones.  A rewrite itself changes neither cache nor database. *)
+Definition rewrite_ok (Hf : Z -> Z -> Z) (strict : bool) (nf : Z -> Z) (pc pd : list (Z * Z)) (ob : obs) : bool :=
+  forallb (fun p => (verified Hf nf (fst p) (snd p) || negb strict) && pmem p pc) (o_cache ob) &&
+  forallb (fun p => (verified Hf nf (fst p) (snd p) || negb strict) && pmem p pd) (o_db ob).
+
+Fixpoint xfirst_bad (Hf : Z -> Z -> Z) (strict : bool) (fh : Z -> Z) (best : Z) (i : Z)
+    (pc pd sv : list (Z * Z)) (tr : list (xop * obs)) : option Z :=
+  match tr with
+  | [] => None
+  | (XBase o, ob) :: rest =>
+    if step_ok Hf fh best strict pc pd sv o ob
+    then xfirst_bad Hf strict fh best (i + 1) (o_cache ob) (next_pd pd o ob) (next_sv sv o) rest
+    else Some i
+  | (XRewrite nb nf, ob) :: rest =>
+    if rewrite_ok Hf strict nf pc pd ob
+    then xfirst_bad Hf strict nf nb (i + 1) (o_cache ob) (o_db ob) sv rest
+    else Some i
+  end.
